@@ -369,6 +369,7 @@ def gen_C03(rng, tier):
 
 def gen_C14(rng, tier):
     out = []
+    sm = M.small_order_points()
     for (dg, k, pk, m, R8, S) in honest_sigs(rng, tier, 4 if tier == 'quick' else 40):
         out.append((vline(dg, pk, m, R8, S), 'honest'))
         kmax = (2**256 - 1 - S) // M.L
@@ -378,6 +379,13 @@ def gen_C14(rng, tier):
         out.append((vline(dg, pk, m, R8, S + M.L * 2**200), 'S+huge*l'))
         for j in range(max(1, S.bit_length() - 2), S.bit_length() + 4):
             out.append((vline(dg, pk, m, R8, S - 2**j), 'S-2^j'))
+        # tuples for which S = 0 satisfies the equation (A of small order, R8 = identity):
+        # then k*l would satisfy it too if the range guard were missing or off by one
+        for Asm in rng.sample(sm, 3) + [(0, 1)]:
+            out.append((vline(dg, Asm, m, (0, 1), 0), 'S=0-valid/small-order-key'))
+            for kk in (1, 2, 3, kmax):
+                out.append((vline(dg, Asm, m, (0, 1), kk * M.L), 'S=k*l/small-order-key'))
+            out.append((vline(dg, Asm, m, (0, 1), -M.L), 'S=-l/small-order-key'))
         for v in (-1, -S, -M.L, M.L, M.L + 1, 2**256 - 1, 2**256, S - M.L, S - 8 * M.L):
             out.append((vline(dg, pk, m, R8, v), 'noncanonical-const'))
         for kk in (1, 2, kmax):
@@ -647,7 +655,7 @@ def predicates(pid, cases, impl):
                     bad(i, 'decompressed point is not a canonical curve point')
                 elif M.compress((x, y)) != bytes.fromhex(t[1][1:]):
                     bad(i, 'decompressed point does not compress back to the input')
-            if pid in ('C03', 'C14') and op.startswith('verify') and cls != 'honest' and not cls.startswith('verify-honest') and not cls.startswith('mixed-order-key') and o != 'ERR':
+            if pid in ('C03', 'C14') and op.startswith('verify') and cls != 'honest' and not cls.startswith('verify-honest') and not cls.startswith('mixed-order-key') and not cls.startswith('S=0-valid') and o != 'ERR':
                 if pid == 'C14' or cls not in ('altered-S',):
                     bad(i, 'verification did not reject (%s) a %s signature' % (o, cls))
             if pid in ('C02', 'C03', 'C14') and (cls == 'honest' or cls.startswith('verify-honest')) and o != 'ok':
